@@ -44,9 +44,11 @@ def aeropoint_problem(surfaces, rotational=False, compressible=False, meshes=Non
     return prob
 
 
-def aeropoint_symbolic(surfaces, meshes, external=None, rotational=False, circulations=None):
+def aeropoint_symbolic(surfaces, meshes, external=None, rotational=False, circulations=None, rep=None):
     """-> GroupPipe after a symbolic run of the real AeroPoint with symbolic meshes (dict name -> object array)."""
     prob = aeropoint_problem(surfaces, rotational=rotational)
+    if rep is not None:
+        units_check(rep, prob, "AeroPoint model (%d surface(s)%s)" % (len(surfaces), ", rotational" if rotational else ""))
     G = pipe.GroupPipe(prob, extra=kernels.EVAL_MTX_STUBS)
     ext = dict(external or {})
     for n, m in meshes.items():
@@ -106,7 +108,11 @@ def aerostruct_symbolic(surface, **kw):
     outputs of the geometry group are independent symbols)."""
     from symoas.sym import bor, gt, lt
 
+    rep = kw.pop("rep", None)
     prob = aerostruct_problem(surface, **kw)
+    if rep is not None:
+        units_check(rep, prob, "AerostructPoint model (%d surface%s%s)" % (len(surface) if isinstance(surface, (list, tuple)) else 1, "s" if isinstance(surface, (list, tuple)) and len(surface) > 1 else "",
+                                                                             ", compressible" if kw.get("compressible") else ""))
 
     def big_loads(ins):  # loads well above the 1e-6 N zeroing threshold of CreateRHS (the property's admissible range)
         return [bor(gt(x, 1e-6), lt(x, -1e-6)) for x in ins["total_loads"].ravel()]
@@ -114,6 +120,92 @@ def aerostruct_symbolic(surface, **kw):
     G = pipe.GroupPipe(prob, root="AS_point_0", extra=kernels.EVAL_MTX_STUBS, skip=(".failure",), assume_for={"CreateRHS": big_loads})
     G.run()
     return G
+
+
+def units_check(rep, prob, label):
+    """No connection of the real, set-up model joins a variable that carries units with one that does not (OpenMDAO only
+    warns about that and then passes the raw number on, whatever unit the source works in), and all inputs fed by one
+    unconnected source agree on whether they carry units.  Ground check on the model's own metadata."""
+    import collections
+
+    m = prob.model
+    metas = {}
+    for io in ("input", "output"):
+        for a, md in m._var_allprocs_abs2meta[io].items():
+            metas[a] = md.get("units")
+    bad = []
+    byivc = collections.defaultdict(list)
+    n = 0
+    for tgt, src in m._conn_global_abs_in2out.items():
+        n += 1
+        if src.startswith("_auto_ivc"):
+            byivc[src].append(tgt)
+            continue
+        if (metas.get(src) is None) != (metas.get(tgt) is None):
+            bad.append("%s [%s] -> %s [%s]" % (src, metas.get(src), tgt, metas.get(tgt)))
+    for src, tgts in byivc.items():
+        if len({metas.get(t) is None for t in tgts}) > 1:
+            bad.append("inputs promoted to one name disagree: " + ", ".join("%s [%s]" % (t, metas.get(t)) for t in tgts))
+    rep.counts["obligations"] += 1
+    rep.groups.append({"case": "units of connected variables: %s" % label, "connections": n, "unit_to_unitless_joins": bad})
+    if bad:
+        rep.counts["candidates"] += 1
+        shown = 0
+        for b in bad:
+            ok, what = _replay_unitless_join(prob, b, metas)
+            if ok:
+                if shown < 3:
+                    rep.violation("%s: a connection joins a variable with units and one without (no conversion takes place)" % label, b + " :: " + what, {"group": label, "join": b, "units": True})
+                shown += 1
+            else:
+                rep.not_reproduced.append({"id": "units: " + b, "why": what})
+    else:
+        rep.counts["discharged"] += 1
+    rep.log("%-52s connections=%d unit/unitless joins=%d" % ("units of connected variables: " + label, n, len(bad)))
+
+
+def _replay_unitless_join(prob, join, metas):
+    """the consuming component on its own, fed the same physical quantity once in the producer's unit and once in a
+    thousand times that unit: its outputs must not change (they do when the input carries no units)"""
+    import warnings
+
+    import openmdao.api as om
+    from openmdao.utils.units import unit_conversion
+
+    try:
+        src, tgt = [x.strip() for x in join.split(" -> ")]
+        (src, us), (tgt, ut) = [(x.rsplit(" [", 1)[0], x.rsplit(" [", 1)[1].rstrip("]")) for x in (src, tgt)]
+    except Exception:
+        return False, "join between promoted inputs: no single-component replay"
+    if us == "None" or ut != "None":
+        return False, "the producer is the unitless side: no single-component replay"
+    comp_path, var = tgt.rsplit(".", 1)
+    comp = prob.model._get_subsystem(comp_path)
+    try:
+        unit_conversion("k" + us, us)
+    except Exception:
+        return False, "no scaled unit available for %s" % us
+    outs = []
+    rng = np.random.default_rng(5)
+    base = 1.0 + rng.random(np.shape(np.asarray(prob.get_val(tgt))))
+    for unit, val in ((us, base), ("k" + us, base / 1000.0)):
+        try:
+            opts = {k: comp.options[k] for k in comp.options._dict if k not in ("distributed", "run_root_only", "always_opt", "use_jit", "default_shape", "derivs_method", "assembled_jac_type")}
+            c2 = type(comp)(**opts)
+            p = om.Problem(reports=False)
+            ivc = om.IndepVarComp()
+            ivc.add_output(var, val=val, units=unit)
+            p.model.add_subsystem("src", ivc, promotes=["*"])
+            p.model.add_subsystem("c", c2, promotes=["*"])
+            with warnings.catch_warnings():
+                warnings.simplefilter("ignore")
+                p.setup()
+                p.run_model()
+            outs.append({n: np.array(p.get_val("c." + n), dtype=float) for n in c2._var_rel_names["output"]})
+        except Exception as e:
+            return False, "stand-alone replay of %s failed: %r" % (comp_path, e)
+    worst = max((float(np.abs(outs[0][n] - outs[1][n]).max()) / max(1.0, float(np.abs(outs[0][n]).max())), n) for n in outs[0])
+    return worst[0] > 1e-9, "%s given the same %s in %s and in k%s: output %s differs by a relative %.3g" % (type(comp).__name__, var, us, us, worst[1], worst[0])
 
 
 def wiring_check(rep, group_factory, label, family, timeout, extra=None, assume_for=None, abstract=(), values=None, skip_inputs=()):
@@ -151,6 +243,7 @@ def wiring_check(rep, group_factory, label, family, timeout, extra=None, assume_
 
     prob = build()
     rep.encode(type(prob.model.g))
+    units_check(rep, prob, label)
     specs, G = pipe.by_name_obligations(prob, extra=extra, assume_for=assume_for, abstract=abstract, skip_inputs=skip_inputs)
     G.encode(rep)
     obs = []
